@@ -731,6 +731,11 @@ class DateParserPlugin(plugins.Plugin):
     >>> parser.parse(u"date:'last tuesday'")
     """
 
+    # What text that looks like a date but is not one on the calendar (or not
+    # representable, e.g. "31 feb", "+99999999d") raises while it is
+    # resolved against the base date
+    date_errors = (DateParseError, TimeError, ValueError, OverflowError)
+
     def __init__(self, basedate=None, dateparser=None, callback=None,
                  free=False, free_expr="([A-Za-z][A-Za-z_0-9]*):([^^]+)"):
         """
@@ -779,13 +784,13 @@ class DateParserPlugin(plugins.Plugin):
         text = node.text
         try:
             dt = self.dateparser.date_from(text, self.basedate)
-            if dt is None:
-                return self.errorize(text, node)
-            else:
-                n = DateTimeNode(node.fieldname, dt, node.boost)
-        except DateParseError:
+        except self.date_errors:
+            # (The error node takes its character range from the node it wraps)
             e = sys.exc_info()[1]
-            n = self.errorize(e, node)
+            return self.errorize(e, node)
+        if dt is None:
+            return self.errorize(text, node)
+        n = DateTimeNode(node.fieldname, dt, node.boost)
         n.startchar = node.startchar
         n.endchar = node.endchar
         return n
@@ -794,26 +799,30 @@ class DateParserPlugin(plugins.Plugin):
         start = end = None
         dp = self.dateparser.get_parser()
 
-        if node.start:
-            start = dp.date_from(node.start, self.basedate)
-            if start is None:
-                return self.errorize(node.start, node)
-        if node.end:
-            end = dp.date_from(node.end, self.basedate)
-            if end is None:
-                return self.errorize(node.end, node)
+        try:
+            if node.start:
+                start = dp.date_from(node.start, self.basedate)
+                if start is None:
+                    return self.errorize(node.start, node)
+            if node.end:
+                end = dp.date_from(node.end, self.basedate)
+                if end is None:
+                    return self.errorize(node.end, node)
 
-        if start and end:
-            ts = timespan(start, end).disambiguated(self.basedate)
-            start, end = ts.start, ts.end
-        elif start:
-            start = start.disambiguated(self.basedate)
-            if isinstance(start, timespan):
-                start = start.start
-        elif end:
-            end = end.disambiguated(self.basedate)
-            if isinstance(end, timespan):
-                end = end.end
+            if start and end:
+                ts = timespan(start, end).disambiguated(self.basedate)
+                start, end = ts.start, ts.end
+            elif start:
+                start = start.disambiguated(self.basedate)
+                if isinstance(start, timespan):
+                    start = start.start
+            elif end:
+                end = end.disambiguated(self.basedate)
+                if isinstance(end, timespan):
+                    end = end.end
+        except self.date_errors:
+            e = sys.exc_info()[1]
+            return self.errorize(e, node)
         drn = DateRangeNode(node.fieldname, start, end, boost=node.boost)
         drn.startchar = node.startchar
         drn.endchar = node.endchar
@@ -914,7 +923,12 @@ class DateTagger(Tagger):
                     dateparser = plugin.dateparser
                     basedate = plugin.basedate
 
-                    d, newpos = dateparser.parse(dtext, basedate)
+                    try:
+                        d, newpos = dateparser.parse(dtext, basedate)
+                    except plugin.date_errors:
+                        # Not a date after all: leave the text to the other
+                        # taggers
+                        d = None
                     if d:
                         node = DateTimeNode(fieldname, d)
                         node.startchar = match.start()
